@@ -44,6 +44,19 @@ def gen_case(rng, kind):
     header_rows = []
     for h in range(model.header):
         header_rows.append([("H%d" % i)[: (widths[i] if widths else 9)] for i in range(len(model.fields))])
+    if kind == "fixed" and header_rows and rng.random() < 0.3:
+        # a heading that does not fit the fixed layout: one cell too wide, or one cell too many / too few
+        bad = list(header_rows[0])
+        how = rng.choice(["wide", "more", "less"])
+        if how == "wide":
+            bad[rng.randrange(len(bad))] = "heading that is too wide"
+        elif how == "more":
+            bad.append("x")
+        elif len(bad) > 1:
+            bad.pop()
+        else:
+            bad[0] = "heading that is too wide"
+        header_rows.insert(0, bad)
     data_rows = [r for r in table if not (r and isinstance(r[0], str) and (r[0].startswith("junk") or r[0].startswith("#")))]
     if kind == "delimited" and model.skip_initial_space:
         # values that start with blanks: what is written has to come back as written
@@ -116,6 +129,9 @@ def check_case(ctx, model, rows, cid_by_path=False):
         before = target.getvalue()
         if n_written < model.header:
             verdict = (RM.ACCEPTED,)  # header rows are written without validation
+            if model.kind == "fixed" and (len(row) != len(model.fields) or any(len(c) > w for c, w in zip(row, model.widths()))):
+                # ... but what cannot be laid out in the fixed columns cannot be written
+                verdict = (RM.REJECTED, "header-shape")
         else:
             # fixed-width cells are compared as they appear in the output (padded to the field width): the writer's
             # verdict has to be the one the reader will give to the written record
@@ -234,7 +250,76 @@ def core_json(obj):
     return core.jsonable(obj)
 
 
+ENCODING_CASES = [
+    ("utf-16", ["abc", "\u00e4\u00f6\u00fc", "x"], "\ud800x"),
+    ("utf-32", ["abc", "\u00e4\u00f6\u00fc", "x"], "\ud800x"),
+    ("utf-8", ["abc", "\u00e4\u20ac", "x"], "\udc80"),
+    ("iso2022_jp", ["abc", "\u3042", "\u3042\u3044"], "\u3042\U0001f600"),
+    ("iso2022_kr", ["abc", "\ud55c", "\ud55c\uae00"], "\ud55c\U0001f600"),
+    ("hz", ["abc", "\u4e2d", "\u4e2d\u6587"], "\u4e2d\U0001f600"),
+    ("ascii", ["abc", "x", "y"], "\u00e4"),
+    ("cp1252", ["abc", "\u00e4", "\u20ac"], "\u3042"),
+    ("shift_jis", ["abc", "\u3042", "\u30a2"], "\U0001f600"),
+]
+
+
+def encoding_refusals(ctx, index):
+    """A row that cannot be encoded for the target file is refused as a whole - also for encodings with a byte order mark
+    or with shift sequences - and the rows accepted before and after it come back as written."""
+    import os
+
+    import cutplace
+    from cutplace import errors, interface
+
+    rng = ctx.rng("encoding", index)
+    encoding, good, bad = ENCODING_CASES[index % len(ENCODING_CASES)]
+    kind = ["delimited", "fixed"][(index // len(ENCODING_CASES)) % 2]
+    rows = [["D", "Format", kind.capitalize()], ["D", "Encoding", encoding]]
+    if kind == "fixed":
+        rows += [["D", "Line delimiter", "LF"], ["F", "a", "", "", "4", "Text", ""], ["F", "b", "", "", "2", "Text", ""]]
+    else:
+        rows += [["F", "a", "", "", "", "Text", ""], ["F", "b", "", "", "", "Text", ""]]
+    values = [rng.choice(good) for _ in range(rng.randint(2, 5))]
+    position = rng.choice([0, 0, 1, len(values)])
+    sequence = [[v, "ok"] for v in values]
+    sequence.insert(position, [bad, "no"])
+    case = {"cid_rows": rows, "rows": sequence, "refused_at": position + 1, "what": "row that cannot be encoded for the target file"}
+    ctx.case(case, True)
+    ctx.count("encoding-refusals.judged")
+    cid = interface.Cid()
+    cid.read("<c14>", rows)
+    path = os.path.join(ctx.tmp, "encoded.txt")
+    accepted = []
+    try:
+        with cutplace.Writer(cid, path) as writer:
+            for row in sequence:
+                try:
+                    writer.write_row(row)
+                    accepted.append(row)
+                except errors.DataError:
+                    pass
+        if [bad, "no"] in accepted:
+            ctx.unjudged("the runtime can encode the probe value after all")
+            return
+        cid2 = interface.Cid()
+        cid2.read("<c14>", rows)
+        back = [list(r) for r in cutplace.rows(cid2, path)]
+    except Exception as error:
+        ctx.violation("C14:output-unreadable-after-encoding-refusal:%s" % encoding, case, "after a row was refused for its encoding the output of the accepted rows cannot be read back",
+                      expected=accepted, observed=error)
+        return
+    finally:
+        if os.path.exists(path):
+            os.remove(path)
+    want = [[v.ljust(4), w.ljust(2)] for v, w in accepted] if kind == "fixed" else accepted
+    if back != want:
+        ctx.violation("C14:rows-changed-after-encoding-refusal:%s" % encoding, case, "rows accepted next to a row refused for its encoding do not come back as written", expected=want, observed=back)
+
+
 def run(ctx):
+    for i in range(ctx.pick(90, 1800)):
+        if ctx.mine(i):
+            encoding_refusals(ctx, i)
     ctx.floor("writes.judged", 1000)
     ctx.floor("readbacks.judged", 200)
     n = ctx.pick(1500, 75000)
@@ -248,4 +333,9 @@ def run(ctx):
 
 
 def replay(ctx, case):
+    if "cid_rows" in case:
+        ctx.note("regenerated by index; rerun the quick check to reproduce")
+        for i in range(90):
+            encoding_refusals(ctx, i)
+        return
     check_case(ctx, RM.CidModel.from_json(case["cid"]), case["rows"], case.get("cid_by_path", False))
